@@ -90,7 +90,7 @@ func read[EntityT entity.Interface](def Definition, wrapper func(e *Entity) Enti
 		return *new(EntityT), err
 	}
 
-	// Perform a breadth-first search to get a topological order of the DAG where we discover the
+	// Perform a breadth-first search to collect all the commits of the DAG, where we discover the
 	// parents commit and go back in time up to the chronological root
 
 	queue := make([]repository.Hash, 0, 32)
@@ -121,26 +121,31 @@ func read[EntityT entity.Interface](def Definition, wrapper func(e *Entity) Enti
 		}
 	}
 
-	// Now, we can reverse this topological order and read the commits in an order where
-	// we are sure to have read all the chronological ancestors when we read a commit.
-
 	// Next step is to:
 	// 1) read the operationPacks
 	// 2) make sure that clocks causality respect the DAG topology.
+	//
+	// Note: the breadth-first order above is not a topological order when the branches
+	// of the DAG have different lengths, so we can't rely on it to have read the parents
+	// of a commit before the commit itself. Instead, all the operationPacks are read first,
+	// and the clocks are checked against the parents in a second pass.
 
 	oppMap := make(map[repository.Hash]*operationPack)
 	var opsCount int
+	var rootCount int
 
-	for i := len(BFSOrder) - 1; i >= 0; i-- {
-		commit := BFSOrder[i]
-		isFirstCommit := i == len(BFSOrder)-1
+	for _, commit := range BFSOrder {
+		isRoot := len(commit.Parents) == 0
 		isMerge := len(commit.Parents) > 1
 
 		// Verify DAG structure: single chronological root, so only the root
 		// can have no parents. Said otherwise, the DAG need to have exactly
 		// one leaf.
-		if !isFirstCommit && len(commit.Parents) == 0 {
-			return *new(EntityT), fmt.Errorf("multiple leafs in the entity DAG")
+		if isRoot {
+			rootCount++
+			if rootCount > 1 {
+				return *new(EntityT), fmt.Errorf("multiple leafs in the entity DAG")
+			}
 		}
 
 		opp, err := readOperationPack(def, repo, resolvers, commit)
@@ -158,16 +163,22 @@ func read[EntityT entity.Interface](def Definition, wrapper func(e *Entity) Enti
 		}
 
 		// Check that the create lamport clock is set (not checked in Validate() as it's optional)
-		if isFirstCommit && opp.CreateTime <= 0 {
+		if isRoot && opp.CreateTime <= 0 {
 			return *new(EntityT), fmt.Errorf("creation lamport time not set")
 		}
 
-		// make sure that the lamport clocks causality match the DAG topology
+		oppMap[commit.Hash] = opp
+		opsCount += len(opp.Operations)
+	}
+
+	// make sure that the lamport clocks causality match the DAG topology
+	for _, commit := range BFSOrder {
+		opp := oppMap[commit.Hash]
+		isMerge := len(commit.Parents) > 1
+
 		for _, parentHash := range commit.Parents {
-			parentPack, ok := oppMap[parentHash]
-			if !ok {
-				panic("DFS failed")
-			}
+			// the search above visited every ancestor, so the parent has been read
+			parentPack := oppMap[parentHash]
 
 			if parentPack.EditTime >= opp.EditTime {
 				return *new(EntityT), fmt.Errorf("lamport clock ordering doesn't match the DAG")
@@ -181,9 +192,6 @@ func read[EntityT entity.Interface](def Definition, wrapper func(e *Entity) Enti
 				return *new(EntityT), fmt.Errorf("lamport clock jumping too far in the future, likely an attack")
 			}
 		}
-
-		oppMap[commit.Hash] = opp
-		opsCount += len(opp.Operations)
 	}
 
 	// The clocks are fine, we witness them
